@@ -31,6 +31,11 @@ def consts(ctx):
     ctx.obligations.append(("consts:readDialData-min-message-size", ok2, "" if ok2 else "found %r" % (small,)))
     exprs["stream_timeout_ns"] = "streamTimeout"
     exprs["time_minute_ns"] = "time.Minute"   # also keeps the "time" import used
+    # option wiring: what New(WithServerRateLimit(101, 102, 103, 104)) hands to the server's limiter
+    for nm, fld in (("opt_wire_rpm", "RPM"), ("opt_wire_per_peer", "PerPeerRPM"), ("opt_wire_dial_data", "DialDataRPM"),
+                    ("opt_wire_max_concurrent", "MaxConcurrentRequestsPerPeer")):
+        exprs[nm] = "func() int { an, _ := New(nil, WithServerRateLimit(101, 102, 103, 104)); return an.srv.limiter.%s }()" % fld
+    exprs["opt_wire_allow_private_default"] = "func() int { an, _ := New(nil); if an.srv.allowPrivateAddrs { return 1 }; return 0 }()"
     exprs["default_rpm"] = "defaultSettings().serverRPM"
     exprs["default_per_peer_rpm"] = "defaultSettings().serverPerPeerRPM"
     exprs["default_dial_data_rpm"] = "defaultSettings().serverDialDataRPM"
@@ -72,6 +77,9 @@ def describe(t):
                 "MaxConcurrentRequestsPerPeer": t[4], "ops(raw: 1 p t res nreqs npeer ninprog | 2 t res ndd | 3 p ninprog | 4)": t[5:205]}
     if t[0] == 1:
         return {"kind": "readDialData", "numBytes": t[1], "nmsgs": t[2], "msgs(kind L D)*, result, consumed": t[3:203]}
+    if t[0] == 3:
+        return {"kind": "option wiring", "passed to New (rpm, perPeer, dialData, maxConc, allowPrivate, amplification policy)": t[1:7],
+                "found in the server": t[7:13]}
     if t[0] == 2:
         return {"kind": "server session", "limits(RPM,PerPeer,DialData,MaxConc)": t[1:5],
                 "raw(stimulus 1 new request|5 stream opened|6 late request|2 data|3 close|4 clock; nev events; npeers inProgress...)": t[5:305]}
@@ -97,6 +105,8 @@ def nontrivial(line):
                 i += 3
             else:
                 i += 1
+        return False
+    if t[0] == b"3":
         return False
     if t[0] == b"1":
         return t[-2] != b"0" or int(t[-1]) >= 2
